@@ -5,6 +5,7 @@ Nothing from /repo is imported or executed: every fact comes from ``ast.parse`` 
 from __future__ import annotations
 
 import ast
+import json
 import hashlib
 import os
 import typing
@@ -150,7 +151,7 @@ def decorator_names(fn: ast.AST) -> list[str]:
 # --------------------------------------------------------------------------------------------------
 # temporaries
 # --------------------------------------------------------------------------------------------------
-def inline_temporaries(fn_node: ast.AST, rounds: int = 4) -> ast.AST:
+def inline_temporaries(fn_node: ast.AST, rounds: int = 4, only: typing.Optional[set] = None) -> ast.AST:
     """Copy of a function in which single-assignment local temporaries (``x = <expr>`` with x bound exactly once, not a
     parameter, loop/with/except/comprehension target or augmented) are substituted into their uses and the assignment
     removed.  Used so that "introduce a temporary" refactorings do not change what a rule sees; line numbers survive."""
@@ -184,7 +185,7 @@ def inline_temporaries(fn_node: ast.AST, rounds: int = 4) -> ast.AST:
                 simple[st.target.id] = st
         cands = {}
         for name, st in simple.items():
-            if bound.get(name, 0) != 1 or name in params:
+            if bound.get(name, 0) != 1 or name in params or (only is not None and name not in only):
                 continue
             val = st.value
             # the value must not depend on names that are re-bound later (keep it simple: all its names bound <= 1 time)
@@ -222,6 +223,166 @@ def inline_temporaries(fn_node: ast.AST, rounds: int = 4) -> ast.AST:
 
 
 # --------------------------------------------------------------------------------------------------
+# alpha-normalisation of locals (refactoring tolerance)
+# --------------------------------------------------------------------------------------------------
+_PINNED: typing.Optional[dict] = None
+
+
+def pinned_locals() -> dict:
+    """{module:qualname -> local names in binding order} of the tree the rules were written against (fv/pinned_locals.json,
+    generated by tools/mkpinned.py).  It only informs the *renaming* below; what is analysed is always the current source."""
+    global _PINNED
+    if _PINNED is None:
+        path = os.path.join(os.path.dirname(os.path.abspath(__file__)), 'pinned_locals.json')
+        try:
+            with open(path, encoding='utf-8') as fh:
+                _PINNED = json.load(fh)
+        except OSError:
+            _PINNED = {}
+    return _PINNED
+
+
+def _fn_params(fn: ast.AST) -> set:
+    a = fn.args
+    out = {x.arg for x in list(a.posonlyargs) + list(a.args) + list(a.kwonlyargs)}
+    if a.vararg:
+        out.add(a.vararg.arg)
+    if a.kwarg:
+        out.add(a.kwarg.arg)
+    return out
+
+
+def own_locals(fn: ast.AST) -> list:
+    """Names bound inside ``fn`` (not in nested functions/classes/lambdas), in order of their first binding in the source;
+    parameters and global/nonlocal names excluded; comprehension variables included."""
+    params = _fn_params(fn)
+    order: list = []
+    blocked: set = set()
+
+    def visit(n: ast.AST) -> None:
+        for child in ast.iter_child_nodes(n):
+            if isinstance(child, FUNC + (ast.ClassDef, ast.Lambda)):
+                if isinstance(child, FUNC + (ast.ClassDef,)) and child.name not in order:
+                    order.append(child.name)
+                continue
+            if isinstance(child, (ast.Global, ast.Nonlocal)):
+                blocked.update(child.names)
+            if isinstance(child, ast.Name) and isinstance(child.ctx, ast.Store) and child.id not in order:
+                order.append(child.id)
+            if isinstance(child, ast.ExceptHandler) and child.name and child.name not in order:
+                order.append(child.name)
+            visit(child)
+
+    # ast.iter_child_nodes follows field order == source order for statements; assignment targets precede values in the
+    # field order, which is irrelevant for *first binding* purposes
+    visit(fn)
+    return [n for n in order if n not in params and n not in blocked]
+
+
+def _rename_local(fn: ast.AST, old: str, new: str) -> None:
+    """Rename the local ``old`` of ``fn`` to ``new`` everywhere it denotes that variable (nested scopes that re-bind the
+    name are left alone)."""
+
+    def rebinds(scope: ast.AST) -> bool:
+        if isinstance(scope, ast.ClassDef):
+            return False
+        if old in _fn_params(scope):
+            return True
+        if isinstance(scope, ast.Lambda):
+            return False
+        return old in own_locals(scope)
+
+    def visit(n: ast.AST) -> None:
+        for child in ast.iter_child_nodes(n):
+            if isinstance(child, FUNC + (ast.Lambda,)) and rebinds(child):
+                # default values / decorators are evaluated in the enclosing scope
+                for d in list(child.args.defaults) + [k for k in child.args.kw_defaults if k is not None]:
+                    visit_expr(d)
+                continue
+            if isinstance(child, ast.Name) and child.id == old:
+                child.id = new
+            elif isinstance(child, ast.ExceptHandler) and child.name == old:
+                child.name = new
+            elif isinstance(child, FUNC + (ast.ClassDef,)) and child.name == old:
+                child.name = new
+            visit(child)
+
+    def visit_expr(e: ast.AST) -> None:
+        if isinstance(e, ast.Name) and e.id == old:
+            e.id = new
+        visit(e)
+
+    visit(fn)
+
+
+def normalise_function(fn: ast.AST, pinned: list) -> None:
+    """Make a harmless refactoring invisible: locals that the pinned version of this function does not know are (1) inlined
+    when they are plain single-assignment temporaries, (2) renamed to the pinned names that went missing, in binding order.
+    Anything else (different number of locals, name capture) leaves the function as it is."""
+    cur = own_locals(fn)
+    new = [n for n in cur if n not in pinned]
+    if not new:
+        return
+    fold_return_temporaries(fn, set(pinned))
+    cur = own_locals(fn)
+    new = [n for n in cur if n not in pinned]
+    if not new:
+        return
+    missing = [n for n in pinned if n not in cur]
+    if len(new) > len(missing):
+        inl = inline_temporaries(fn, only=set(new))
+        fn.body = inl.body
+        cur = own_locals(fn)
+        new = [n for n in cur if n not in pinned]
+        missing = [n for n in pinned if n not in cur]
+    if new and len(new) == len(missing):
+        used = {x.id for x in ast.walk(fn) if isinstance(x, ast.Name)} | _fn_params(fn)
+        if not any(m in used for m in missing):
+            for a, b in zip(new, missing):
+                _rename_local(fn, a, b)
+
+
+def canonical_ifs(tree: ast.AST) -> bool:
+    """``if not c: A else: B`` -> ``if c: B else: A`` (both arms present, no elif chain): one spelling for both orders."""
+    changed = False
+    for n in ast.walk(tree):
+        if isinstance(n, ast.If) and n.orelse and isinstance(n.test, ast.UnaryOp) and isinstance(n.test.op, ast.Not) and not (len(n.orelse) == 1 and isinstance(n.orelse[0], ast.If)) and not (len(n.body) == 1 and isinstance(n.body[0], ast.If)):
+            n.test = n.test.operand
+            n.body, n.orelse = n.orelse, n.body
+            changed = True
+    return changed
+
+
+def fold_return_temporaries(fn: ast.AST, keep: set) -> None:
+    """``x = E`` immediately followed by ``return x`` (x not a known local) -> ``return E``."""
+    for n in ast.walk(fn):
+        for field in ('body', 'orelse', 'finalbody'):
+            seq = getattr(n, field, None)
+            if not isinstance(seq, list):
+                continue
+            i = 0
+            while i + 1 < len(seq):
+                a, b = seq[i], seq[i + 1]
+                if isinstance(a, ast.Assign) and len(a.targets) == 1 and isinstance(a.targets[0], ast.Name) and a.targets[0].id not in keep and isinstance(b, ast.Return) and isinstance(b.value, ast.Name) and b.value.id == a.targets[0].id:
+                    name = a.targets[0].id
+                    others = sum(1 for x in ast.walk(fn) if isinstance(x, ast.Name) and x.id == name)
+                    if others == 2:
+                        seq[i:i + 2] = [ast.copy_location(ast.Return(value=a.value), b)]
+                        continue
+                i += 1
+
+
+def strip_noops(tree: ast.AST) -> None:
+    for n in ast.walk(tree):
+        for field in ('body', 'orelse', 'finalbody'):
+            seq = getattr(n, field, None)
+            if isinstance(seq, list) and len(seq) > 1 and any(isinstance(x, ast.Pass) for x in seq):
+                kept = [x for x in seq if not isinstance(x, ast.Pass)]
+                if kept:
+                    setattr(n, field, kept)
+
+
+# --------------------------------------------------------------------------------------------------
 # modules
 # --------------------------------------------------------------------------------------------------
 class Module:
@@ -240,6 +401,36 @@ class Module:
         self.defs: dict[str, ast.AST] = {}  # qualname -> ClassDef/FunctionDef (nested included)
         self.assigns: dict[str, ast.AST] = {}  # top-level NAME = value
         self._index()
+        if not os.environ.get('FV_NO_NORMALISE'):
+            self._normalise()
+
+    def _normalise(self) -> None:
+        """Refactoring tolerance (DESIGN 2.12): no-op statements dropped, unknown temporaries inlined, renamed locals mapped
+        back to the names the rules were written with.  Outer functions first (their renames reach free references of the
+        nested ones)."""
+        pinned = pinned_locals()
+        changed = False
+        if any(isinstance(x, ast.Pass) for x in ast.walk(self.tree)):
+            strip_noops(self.tree)
+            changed = True
+        if canonical_ifs(self.tree):
+            changed = True
+        for qual in sorted(self.defs, key=lambda q: q.count('.')):
+            node = self.defs[qual]
+            if not isinstance(node, FUNC):
+                continue
+            want = pinned.get(f'{self.name}:{qual}')
+            if want is None:
+                continue
+            before = ast.dump(node)
+            normalise_function(node, want)
+            changed = changed or ast.dump(node) != before
+        if changed:
+            ast.fix_missing_locations(self.tree)
+            set_parents(self.tree)
+            self.defs.clear()
+            self.assigns.clear()
+            self._index()
 
     @property
     def package(self) -> str:
